@@ -32,7 +32,7 @@ func init() {
 			"ServeConn's real 1 s negotiation timeout is the only wall-clock dependency; a handshake that misses it is retried and reported inconclusive, never violated",
 		},
 		Shards:   shards(8, 16),
-		Timeout:  timeouts(5*time.Minute, 30*time.Minute),
+		Timeout:  timeouts(12*time.Minute, 90*time.Minute),
 		MinEvals: 300,
 		Required: []string{"server_direct_listings", "server_session_listings", "client_listings", "lookahead_events", "bad_offset_probes", "final_empty_reads", "transient_iterator_errors", "spare_capacity_reads", "giant_entry_listings", "concurrent_same_offset_reads"},
 		Run:      runC17,
